@@ -99,20 +99,21 @@ Definition chk_c06 (c : feed_case) : bool * bool :=
    then no_exc xs && list_eqb delivery_eqb (all_ds xs) (ref_deliveries k cf frames)
    else true).
 
-(* ---- C07: arbitrary (corrupted) input; every delivery must be justified by the bytes given so far *)
-Definition corrupt_case := (kind * cfg * dtable * list bytes * list obs)%type.
+(* ---- C07: arbitrary (corrupted) input; every delivery must be justified by the bytes given so far
+   (and, on TCP, carry a PDU of the length its function code defines; server = request direction) *)
+Definition corrupt_case := (kind * bool * cfg * dtable * list bytes * list obs)%type.
 
-Fixpoint justified_all (k : kind) (sofar : bytes) (chunks : list bytes) (xs : list obs) : bool :=
+Fixpoint justified_all (k : kind) (server : bool) (sofar : bytes) (chunks : list bytes) (xs : list obs) : bool :=
   match chunks, xs with
   | ch :: chunks', x :: xs' =>
       let sofar' := sofar ++ ch in
-      forallb (justified k sofar') (o_ds x) && justified_all k sofar' chunks' xs'
+      forallb (justified_dir k server sofar') (o_ds x) && justified_all k server sofar' chunks' xs'
   | _, _ => true
   end.
 
 Definition chk_c07 (c : corrupt_case) : bool * bool :=
-  let '(k, cf, t, chunks, xs) := c in
-  (m_feed_ok (dec_of t) cf (m_init k) chunks xs, justified_all k [] chunks xs).
+  let '(k, server, cf, t, chunks, xs) := c in
+  (m_feed_ok (dec_of t) cf (m_init k) chunks xs, justified_all k server [] chunks xs).
 
 (* ---- C11 (ASCII): garbage, then valid frames; after at most two maximum-size frames of valid
    traffic every frame is delivered, and the backlog stays bounded ------------------------ *)
